@@ -45,6 +45,11 @@ type Prop struct {
 	Post func(a *Agg) []string
 	// Pre runs in the driver before any worker starts (self-checks of the model).
 	Pre func(tier string) error
+	// Aux runs in the driver after the workers: complementary, non-deciding passes
+	// (the free-running race-detector pass). Its violations join the others.
+	Aux func(tier string) (viols []*VRec, info map[string]any, errs []string)
+	// Sub lets the binary serve extra sub-commands (e.g. -racepass).
+	Sub map[string]func(args []string) int
 }
 
 // Ctx is the worker-side context.
@@ -140,6 +145,10 @@ func (c *Ctx) Begin(desc string) bool {
 	c.all[Hash(desc)] = struct{}{}
 	return true
 }
+
+// Heartbeat tells the hang watchdog that the current case is making progress
+// (cases that are whole explorations run for much longer than one input).
+func (c *Ctx) Heartbeat() { c.curStart.Store(time.Now().UnixNano()) }
 
 // Hash returns the FNV-1a hash of s.
 func Hash(s string) uint64 {
@@ -280,6 +289,7 @@ func (c *Ctx) flush() {
 type Agg struct {
 	result
 	Tier       string
+	Aux        map[string]any
 	Violations []*VRec
 	Crashes    int
 }
@@ -302,6 +312,15 @@ func Main(props map[string]*Prop) {
 	if len(args) >= 1 && args[0] == "-worker" {
 		workerMain(props, args[1:])
 		return
+	}
+	if len(args) >= 2 && strings.HasPrefix(args[0], "-sub:") {
+		for _, p := range props {
+			if f := p.Sub[args[0][5:]]; f != nil {
+				os.Exit(f(args[1:]))
+			}
+		}
+		fmt.Fprintln(os.Stderr, "unknown sub-command", args[0])
+		os.Exit(2)
 	}
 	if len(args) >= 2 && args[0] == "-replay" {
 		os.Exit(replayMain(props, args[1]))
@@ -581,6 +600,15 @@ func drive(p *Prop, tier string) int {
 	if p.Post != nil {
 		machineErrs = append(machineErrs, p.Post(agg)...)
 	}
+	var auxInfo map[string]any
+	if p.Aux != nil {
+		vs, info, errs := p.Aux(tier)
+		auxInfo = info
+		machineErrs = append(machineErrs, errs...)
+		for _, v := range vs {
+			addV(v)
+		}
+	}
 	sort.Slice(agg.Violations, func(i, j int) bool { return agg.Violations[i].Sig < agg.Violations[j].Sig })
 
 	// ledger
@@ -632,6 +660,7 @@ func drive(p *Prop, tier string) int {
 	}
 
 	wall := time.Since(start).Seconds()
+	agg.Aux = auxInfo
 	writeEvidence(p, agg, tier, wall, len(fresh), known, machineErrs)
 	fmt.Printf("%s %s: evaluations=%d distinct_nontrivial=%d exhaustive=%v violations=%d known=%d crashes=%d wall=%.1fs\n",
 		p.ID, tier, agg.Evals, agg.NonTrivial, !agg.Expired, len(fresh), len(known), agg.Crashes, wall)
@@ -697,6 +726,9 @@ func writeEvidence(p *Prop, a *Agg, tier string, wall float64, nviol int, known 
 	}
 	if len(a.Samples) == 0 {
 		cov["samples"] = []any{"(no case executed)"}
+	}
+	for k, v := range a.Aux {
+		cov[k] = v
 	}
 	kf := map[string]int64{}
 	for k, v := range known {
